@@ -2,7 +2,7 @@
    invocations/casts.rs::build_downcast (overflow above / below / both, bounds of either sign, wide and
    far-from-zero ranges). *)
 From Libfuncs Require Import Tactics Stmt.
-From GenC03 Require Import W_p_downcast_both W_p_downcast_both_pos W_p_downcast_both_neg W_p_downcast_above_only W_p_downcast_above_only_neg_bound W_p_downcast_below_only W_p_downcast_below_only_zero W_p_downcast_below_only_pos W_p_downcast_wide_both W_p_downcast_full_128_to_half W_p_downcast_far_both W_p_downcast_u128_to_upper_2p128_lower_pos W_p_downcast_u128_to_top_singleton W_p_downcast_u128_to_lower_one W_p_downcast_shifted128_above_upper_2p128_plus1 W_p_downcast_around_2p128_both W_p_downcast_neg_to_upper_zero W_p_downcast_neg_to_upper_one W_p_downcast_to_lower_one W_p_downcast_to_singleton_zero W_p_downcast_full_signed_128_to_nonneg.
+From GenC03 Require Import W_p_downcast_both W_p_downcast_both_pos W_p_downcast_both_neg W_p_downcast_above_only W_p_downcast_above_only_neg_bound W_p_downcast_below_only W_p_downcast_below_only_zero W_p_downcast_below_only_pos W_p_downcast_wide_both W_p_downcast_full_128_to_half W_p_downcast_far_both W_p_downcast_u128_to_upper_2p128_lower_pos W_p_downcast_u128_to_top_singleton W_p_downcast_u128_to_lower_one W_p_downcast_shifted128_both_upper_2p128 W_p_downcast_shifted128_above_upper_2p128_plus1 W_p_downcast_around_2p128_both W_p_downcast_around_2p128_above_to_upper_2p128 W_p_downcast_around_2p128_below_from_2p128 W_p_downcast_neg_to_upper_zero W_p_downcast_neg_to_upper_one W_p_downcast_to_lower_one W_p_downcast_to_singleton_zero W_p_downcast_full_signed_128_to_nonneg.
 
 Ltac cast_tac ps :=
   intros m pb s0 s' v Hm Hpc Hr rc Hv Ev Hrc Hrck;
@@ -80,6 +80,11 @@ Definition paths_p_downcast_u128_to_lower_one := Eval vm_compute in
 Theorem p_downcast_u128_to_lower_one_sound : downcast_sound 0 340282366920938463463374607431768211455 1 340282366920938463463374607431768211455 1 1 code_p_downcast_u128_to_lower_one entry_p_downcast_u128_to_lower_one.
 Proof. time "p_downcast_u128_to_lower_one" (cast_tac paths_p_downcast_u128_to_lower_one). Qed.
 
+Definition paths_p_downcast_shifted128_both_upper_2p128 := Eval vm_compute in
+  match symex code_p_downcast_shifted128_both_upper_2p128 200 [] (sinit entry_p_downcast_shifted128_both_upper_2p128) with Some p => p | None => [] end.
+Theorem p_downcast_shifted128_both_upper_2p128_sound : downcast_sound 1 340282366920938463463374607431768211456 5 340282366920938463463374607431768211455 2 1 code_p_downcast_shifted128_both_upper_2p128 entry_p_downcast_shifted128_both_upper_2p128.
+Proof. time "p_downcast_shifted128_both_upper_2p128" (cast_tac paths_p_downcast_shifted128_both_upper_2p128). Qed.
+
 Definition paths_p_downcast_shifted128_above_upper_2p128_plus1 := Eval vm_compute in
   match symex code_p_downcast_shifted128_above_upper_2p128_plus1 200 [] (sinit entry_p_downcast_shifted128_above_upper_2p128_plus1) with Some p => p | None => [] end.
 Theorem p_downcast_shifted128_above_upper_2p128_plus1_sound : downcast_sound 1 340282366920938463463374607431768211456 1 340282366920938463463374607431768211454 1 1 code_p_downcast_shifted128_above_upper_2p128_plus1 entry_p_downcast_shifted128_above_upper_2p128_plus1.
@@ -89,6 +94,16 @@ Definition paths_p_downcast_around_2p128_both := Eval vm_compute in
   match symex code_p_downcast_around_2p128_both 200 [] (sinit entry_p_downcast_around_2p128_both) with Some p => p | None => [] end.
 Theorem p_downcast_around_2p128_both_sound : downcast_sound 340282366920938463463374607431768211451 340282366920938463463374607431768211461 340282366920938463463374607431768211454 340282366920938463463374607431768211457 2 1 code_p_downcast_around_2p128_both entry_p_downcast_around_2p128_both.
 Proof. time "p_downcast_around_2p128_both" (cast_tac paths_p_downcast_around_2p128_both). Qed.
+
+Definition paths_p_downcast_around_2p128_above_to_upper_2p128 := Eval vm_compute in
+  match symex code_p_downcast_around_2p128_above_to_upper_2p128 200 [] (sinit entry_p_downcast_around_2p128_above_to_upper_2p128) with Some p => p | None => [] end.
+Theorem p_downcast_around_2p128_above_to_upper_2p128_sound : downcast_sound 340282366920938463463374607431768211451 340282366920938463463374607431768211461 340282366920938463463374607431768211451 340282366920938463463374607431768211455 1 1 code_p_downcast_around_2p128_above_to_upper_2p128 entry_p_downcast_around_2p128_above_to_upper_2p128.
+Proof. time "p_downcast_around_2p128_above_to_upper_2p128" (cast_tac paths_p_downcast_around_2p128_above_to_upper_2p128). Qed.
+
+Definition paths_p_downcast_around_2p128_below_from_2p128 := Eval vm_compute in
+  match symex code_p_downcast_around_2p128_below_from_2p128 200 [] (sinit entry_p_downcast_around_2p128_below_from_2p128) with Some p => p | None => [] end.
+Theorem p_downcast_around_2p128_below_from_2p128_sound : downcast_sound 340282366920938463463374607431768211451 340282366920938463463374607431768211461 340282366920938463463374607431768211456 340282366920938463463374607431768211461 1 1 code_p_downcast_around_2p128_below_from_2p128 entry_p_downcast_around_2p128_below_from_2p128.
+Proof. time "p_downcast_around_2p128_below_from_2p128" (cast_tac paths_p_downcast_around_2p128_below_from_2p128). Qed.
 
 Definition paths_p_downcast_neg_to_upper_zero := Eval vm_compute in
   match symex code_p_downcast_neg_to_upper_zero 200 [] (sinit entry_p_downcast_neg_to_upper_zero) with Some p => p | None => [] end.
